@@ -93,6 +93,23 @@ for k, v in addenda.items():
     e = checks[k]
     checks[k] = (e[0], e[1], e[2] + v, e[3], e[4])
 
+# extensions after the API-coverage audit and the third round
+addenda3 = {'C04': ' The state key of the set search carries which handles share one Go map; a constructor pass applies every stream / set / stream-set constructor (incl. the converting FromArray* ones) to every list up to length 3.',
+ 'C05': ' Long operands (17-300 elements: distinct, reversed, with repeats) are paired with each other and with the short lists for the slice and Stream operations; the map helpers (Keys, Values, Merge, DuplicateMap, IntersectionMapByKey, MinusMapByKey, IsSubset/IsSupersetMapByKey, SliceToMap, Exists) and their ForInterface twins over all pairs of partial maps.',
+ 'C07': ' Queues configured through their setters; the overflow limit lowered at run time below what is buffered (the queue must not grow while above the limit).',
+ 'C08': ' A bounded wrapped container (2 slots, refuses instead of blocking) with insertions that find it full; the sequential model has the same capacity.',
+ 'C09': ' Pools configured through a settings struct / SetDefaultWorkerPoolSettings + SetJobQueue; the panic handler replaced while a worker exists; closed pools whose job queue stays open.',
+ 'C10': ' Values are published on every stage of a Map chain.',
+ 'C11': " Re-configuration (SubscribeOn(nil) / another handler) while a subscription's effect is running: a subscription is routed by the handlers in force when Subscribe was called.", 'C12': ' Two mailboxes from each of the six Handler / Actor constructors whose work depends on each other (would deadlock if they shared a goroutine or channel).',
+ 'C13': ' Method-style constructors Ask.New / Ask.NewByOptions on the utility instance and on a constructed (factory) instance.',
+ 'C14': ' Cor.New (interface{} coroutine) as target with callers from NewAndStart.',
+ 'C18': ' Every HTTP verb plus DoNewRequest / DoNewRequestWithBodyOptions / DoRequest is probed after every history with the method seen by the transport; a second world whose shared constructor slice holds three interceptors; three default-constructed instances (NewSimpleHTTP, NewSimpleAPI) used with the clients the constructors made, http.DefaultTransport stubbed for the duration.',
+ 'C19': ' ThenWith(descriptor objects) and SortBySortDescriptors are further API variants of every stack.',
+ 'C20': ' One adapter instance of every MakeVariadic* / CurryParam* family applied twice with the first result re-inspected; MatchCompType(Ref); CurryNew.'}
+for k, v in addenda3.items():
+    e = checks[k]
+    checks[k] = (e[0], e[1], e[2] + v, e[3], e[4])
+
 not_yet = "check not built yet in this round (see DESIGN.md §9 build order); no claim made"
 
 m = {
